@@ -33,7 +33,10 @@ META = {
     "note": "blobs that decode (lenient wire reading: zero-filled short strings, ignored trailing bytes, "
             "RSA leading zeros, mpint leading zeros, -cert algorithm aliases) to the genuine signature "
             "value are an equivalence class for which True and False are both accepted; ECDSA "
-            "signatures are randomised by the library, only their byte shape is normalised",
+            "signatures are randomised by the library, only their byte shape is normalised; edited blobs that "
+            "declare an ECDSA r/s length of 2^12..2^18 bytes (zero-filled by Message, quadratic in "
+            "util.inflate_long: up to minutes per call) are run under one verifier object per key only "
+            "(thorough: from 2^17), lengths of 2^19 and more are left out - counter excluded_slow_inflate_long",
     "design_ref": "4/C35",
 }
 
@@ -456,7 +459,9 @@ def main(tier):
         "(so decoding or the cryptographic check has to reject it)",
         ["cryptography / PyNaCl primitives trusted", "ECDSA signatures are randomised by the library: "
          "edit positions are fixed (shape-normalised) but the signature bytes differ between runs",
-         "blobs that decode leniently to the genuine (algorithm, value) pair may verify either way"])
+         "blobs that decode leniently to the genuine (algorithm, value) pair may verify either way",
+         "edits declaring an ECDSA mpint length >= 2^12 (quick) / 2^17 (thorough) bytes run under one verifier "
+         "object per key; >= 2^19 left out (inflate_long is quadratic; performance is not C35's subject)"])
     items = []
     for kid, kind in ((k[0], k[1]) for k in KEYSPEC):
         for alg in algs_of(kind):
